@@ -77,8 +77,18 @@ func VP_C18_LoaderExact() {
 	if nsets > 0 || vpChoose("empty-params-key", 2) == 1 {
 		doc["params"] = params
 	}
-	unknownKey := vpChoose("unknown-key", 3)
+	unknownKey := vpChoose("unknown-key", 4)
 	switch unknownKey {
+	case 3: // a misspelt key inside the algorithm's own map
+		unknownKey = 0
+		if nsets > 0 {
+			for _, alg := range []string{"argon2id", "scryptauth"} {
+				if m, ok := params[0].(map[string]interface{})[alg].(map[string]interface{}); ok {
+					m["memmory"] = 8
+					unknownKey = 3
+				}
+			}
+		}
 	case 1:
 		doc["basedirr"] = "x"
 	case 2:
@@ -248,6 +258,15 @@ func VP_C18_ReloadAllOrNothing() {
 	} else {
 		vpAssert("previous-configuration-kept-entirely", s.dir.BaseDir == baseA && s.dir.Default == 1 && len(s.dir.Params) == 2)
 		vpAssert("old-store-keeps-serving", okOld && !okNew)
+	}
+	// reloading again (and again) is just as harmless: the agent keeps answering
+	for i := vpChoose("further-reloads", 3); i > 0; i-- {
+		vpSignalHUP()
+		for k := 0; k < 2; k++ { // the first request may be served before the reload, the second not
+			done := make(chan bool, 1)
+			go func() { st.Check(); done <- true }()
+			vpAssert("agent-answers-after-repeated-reloads", vpAwait(done))
+		}
 	}
 	vpCover("end")
 }
